@@ -148,7 +148,13 @@ def _s(p):
     try:
         return str(p)
     except Exception:
-        return repr(p)
+        try:
+            return repr(p)
+        except Exception:
+            return "<%s %s>" % (type(p).__name__, [
+                (k, getattr(p, k, None)) for k in getattr(type(p), "__slots__", [])
+                if getattr(p, k, None) is not None and not k.startswith("_dump")
+                and not k.startswith("_trunc")])
 
 
 def _t(f):
@@ -156,3 +162,140 @@ def _t(f):
         return f()
     except Exception as e:
         return "%s" % type(e).__name__
+
+
+def check_c01(tier, seed, repo):
+    """Safety net for C01 (see the module docstring): p + d for exact durations against the
+    spec's `instant`, validity, representation and zone kept, p - d == p + (-d), d + p."""
+    if repo not in sys.path:
+        sys.path.insert(0, repo)
+    import metomi.isodatetime.data as data
+    from spec import cal
+    rnd = random.Random(seed)
+    fails, n = [], 0
+    durs = [dict(days=1), dict(days=-1), dict(days=-1096), dict(days=1461), dict(weeks=-53),
+            dict(weeks=105), dict(hours=-100000), dict(hours=25, minutes=-61, seconds=3601),
+            dict(seconds=86399), dict(seconds=-86401), dict(minutes=527040),
+            dict(days=-366, hours=-23, minutes=-59, seconds=-59), dict(days=146097),
+            dict(days=-146098)]
+    modes = ["gregorian", "360day", "365day", "366day"]
+    forms = {(d, "hms") for d in ("cal", "ord", "week")}
+    for mode in modes if tier == "thorough" else modes[:2]:
+        data.CALENDAR.set_mode(mode)
+        cal.set_mode(mode)
+        years = [2019, 2016, 2000, 1900, 2004, 0, -1, 2021]
+        bases = []
+        for y in years if tier == "thorough" else rnd.sample(years, 4):
+            j1 = cal.dby(y) * 86400
+            for off in (0, 86399, 59 * 86400 + 43200, 364 * 86400 + 7):
+                bases.append(j1 + off)
+        for inst in bases:
+            try:
+                sp = _spellings(data, inst, [(0, 0), (5, 30), (-3, -30)], forms)
+            except Exception as e:     # construction of a valid spelling must not fail
+                fails.append({"id": "ctor-%s-%d" % (mode, inst),
+                              "input": {"mode": mode, "instant": inst},
+                              "observed": "%s: %s" % (type(e).__name__, str(e)[:100]),
+                              "expected": "every spelling of a valid date-time is accepted"})
+                continue
+            sp = [x for x in sp if "24:00" not in x[0]]
+            for (nm, p) in (sp if tier == "thorough" else rnd.sample(sp, 4)):
+                for kw in (durs if tier == "thorough" else rnd.sample(durs, 6)):
+                    n += 1
+                    d = data.Duration(**kw)
+                    try:
+                        r = p + d
+                        want = cal.instant(p) + cal.dlen(d)
+                        ok = (cal.instant(r) == want and cal.valid_date(r)
+                              and cal.time_normal(r)
+                              and r.get_is_calendar_date() == p.get_is_calendar_date()
+                              and r.get_is_ordinal_date() == p.get_is_ordinal_date()
+                              and r.time_zone == p.time_zone
+                              and cal.instant(p - (d * -1)) == want
+                              and cal.instant(d + p) == want
+                              and cal.instant(p - d) == cal.instant(p + d * -1))
+                        obs = str(_s(r))
+                    except Exception as e:
+                        ok, obs = False, "%s: %s" % (type(e).__name__, str(e)[:80])
+                    if not ok and len(fails) < 10:
+                        fails.append({"id": "%s-%s-%s" % (mode, nm, sorted(kw.items())),
+                                      "input": {"mode": mode, "p": "%s = %s" % (nm, _s(p)),
+                                                "d": kw},
+                                      "observed": obs,
+                                      "expected": "the instant of p moved by exactly the "
+                                                  "length of d, a valid date, normal time, "
+                                                  "p's representation and offset; p - d == "
+                                                  "p + (-d); d + p the same"})
+        data.CALENDAR.set_mode("gregorian")
+        cal.set_mode("gregorian")
+    return [{"name": "timepoint.plus-exact-duration.vs-instant", "kind": "grid",
+             "bound": "points around New Year / leap day / year end of up to 8 years (incl. 0 "
+                      "and -1) x 3 representations x 3 offsets x 14 exact durations (multi-year, "
+                      "negative, week form, mixed signs), %d calendar modes"
+                      % (4 if tier == "thorough" else 2),
+             "evaluations": n, "exhaustive": False, "failures": fails}]
+
+
+def check_c04(tier, seed, repo):
+    """Safety net for C04: a - b for points spelled in different representations and
+    offsets, against the spec's `instant`; field ranges, one sign; b + (a - b) == a."""
+    if repo not in sys.path:
+        sys.path.insert(0, repo)
+    import metomi.isodatetime.data as data
+    from spec import cal
+    rnd = random.Random(seed)
+    fails, n = [], 0
+    forms = {(d, "hms") for d in ("cal", "ord", "week")}
+    offsets = [(0, 0), (5, 30), (-3, -30), (0, -30), (0, -44), (14, 0), (-12, 0)]
+    modes = ["gregorian", "360day", "365day", "366day"]
+    for mode in modes if tier == "thorough" else modes[:2]:
+        data.CALENDAR.set_mode(mode)
+        cal.set_mode(mode)
+        insts = []
+        for y in (2000, 2001, 2019, 2400, 1600, 0, 1999):
+            j1 = cal.dby(y) * 86400
+            insts += [j1, j1 + 86399, j1 + 59 * 86400 + 3661, j1 - 1]
+        pts = []
+        for inst in (insts if tier == "thorough" else rnd.sample(insts, 10)):
+            try:
+                sp = [x for x in _spellings(data, inst, offsets if tier == "thorough"
+                                             else rnd.sample(offsets, 3), forms)]
+            except Exception as e:     # construction of a valid spelling must not fail
+                fails.append({"id": "ctor-%s-%d" % (mode, inst),
+                              "input": {"mode": mode, "instant": inst},
+                              "observed": "%s: %s" % (type(e).__name__, str(e)[:100]),
+                              "expected": "every spelling of a valid date-time is accepted"})
+                continue
+            pts += [(inst, nm, p) for (nm, p) in (sp if tier == "thorough"
+                                                  else rnd.sample(sp, 3))]
+        pairs = [(a, b) for a in pts for b in pts]
+        pairs = rnd.sample(pairs, min(len(pairs), 6000 if tier == "thorough" else 400))
+        for ((ia, na, a), (ib, nb, b)) in pairs:
+            n += 1
+            try:
+                d = a - b
+                neg = ia < ib
+                comps = [d.days, d.hours, d.minutes, d.seconds]
+                ok = (d.get_seconds() == ia - ib and d.years == 0 and d.months == 0
+                      and not d.get_is_in_weeks()
+                      and all((c <= 0) if neg else (c >= 0) for c in comps)
+                      and abs(d.hours) < 24 and abs(d.minutes) < 60 and abs(d.seconds) < 60
+                      and (b + d) == a and (a - b) == (b - a) * -1)
+                obs = str(d)
+            except Exception as e:
+                ok, obs = False, "%s: %s" % (type(e).__name__, str(e)[:80])
+            if not ok and len(fails) < 10:
+                fails.append({"id": "%s-%s-%s-%d-%d" % (mode, na, nb, ia, ib),
+                              "input": {"mode": mode, "a": "%s = %s" % (na, _s(a)),
+                                        "b": "%s = %s" % (nb, _s(b))},
+                              "observed": obs,
+                              "expected": "an exact Duration of %d s (days, hours, minutes, "
+                                          "seconds in range, one sign) with b + (a - b) == a"
+                                          % (ia - ib)})
+        data.CALENDAR.set_mode("gregorian")
+        cal.set_mode("gregorian")
+    return [{"name": "timepoint.difference.vs-instant", "kind": "grid",
+             "bound": "pairs of points (year ends, leap days, years 0 / 1600 / 2400: up to 400 "
+                      "years apart) x 3 representations x up to 7 offsets incl. -00:30 and "
+                      "-00:44, %d calendar modes" % (4 if tier == "thorough" else 2),
+             "evaluations": n, "exhaustive": False, "failures": fails}]
